@@ -47,7 +47,8 @@ def snapshot(ttn):
 
 
 class Driver:
-    def __init__(self, ttn_cls=TreeTensorNetwork, nprs=None, ints=None, complex_=True, lowrank=0.0, share=False, ghz=False, intdtype=False):
+    def __init__(self, ttn_cls=TreeTensorNetwork, nprs=None, ints=None, complex_=True, lowrank=0.0, share=False, ghz=False, intdtype=False,
+                 mixed=False):
         self.ttn = ttn_cls()
         self.atoms = []          # atom index -> ndarray (raw value at creation)
         self.nprs = nprs or np.random.RandomState(0)
@@ -61,6 +62,8 @@ class Driver:
         self._shared = {}
         self.intdtype = intdtype      # with ints and complex_=False: tensors of an INTEGER numpy dtype (hand-written states)
         self.ghz = ghz                # copy tensors (delta on all legs): exactly degenerate Schmidt spectrum on every bond
+        self.mixed = mixed            # MIXED data types: every tensor handed over is int64 / float64 / complex128 at random, and the
+        #                               factors of an explicit replacement carry a random complex unitary gauge (A.U, U^dagger.B: same product)
 
     def _rand(self, shape):
         if self.ghz and len(shape) >= 1:
@@ -83,6 +86,21 @@ class Driver:
             for y in vs[1:]:
                 x = np.multiply.outer(x, y)
             return x
+        if self.mixed:
+            kind = self.nprs.randint(3)
+            if self.ints is not None:
+                t = self.nprs.randint(-self.ints, self.ints + 1, size=shape).astype(np.int64)
+                if kind == 1:
+                    t = t.astype(float)
+                elif kind == 2:
+                    t = t.astype(float) + 1j * self.nprs.randint(-self.ints, self.ints + 1, size=shape)
+                return t
+            t = self.nprs.standard_normal(shape)
+            if kind == 0:
+                t = np.rint(3 * t).astype(np.int64)
+            elif kind == 2:
+                t = t + 1j * self.nprs.standard_normal(shape)
+            return t
         if self.ints is not None:
             t = self.nprs.randint(-self.ints, self.ints + 1, size=shape)
             if self.intdtype and not self.complex:
@@ -185,6 +203,11 @@ class Driver:
                 m = min(r, len(s))
                 a_[:, :m] = u[:, :m] * s[:m]
                 b_[:m, :] = vh[:m, :]
+                if self.mixed and r > 0:
+                    g = self.nprs.standard_normal((r, r)) + 1j * self.nprs.standard_normal((r, r))
+                    g, _ = np.linalg.qr(g)
+                    a_ = a_ @ g
+                    b_ = g.conj().T @ b_
                 ta = a_.reshape([lt.shape[x] for x in ol] + [r])
                 tb = b_.reshape([r] + [lt.shape[x] for x in il])
                 oid2 = oid if oid is not None else "out_of_" + n
